@@ -194,11 +194,9 @@ func (d *drv) propose(r *kit.Rng, kind string, nextOff map[int]uint64, step, bud
 	return ws
 }
 
-// burst: the notifier is held parked while more than eventsChannelSize events are produced, so
-// that the last Update of the victim projection has to block in its enqueue with a full queue of
-// events of other projections; the victim's subscriber shares no projection with them
-func (d *drv) burst(r *kit.Rng, sc *scenario) {
-	do := func(format string, a ...any) bool {
+// recorder executes commands and appends the executed ones to the scenario's script
+func (d *drv) recorder(sc *scenario) func(format string, a ...any) bool {
+	return func(format string, a ...any) bool {
 		cmd := fmt.Sprintf(format, a...)
 		if d.aborted || !d.exec(cmd) {
 			return false
@@ -206,26 +204,82 @@ func (d *drv) burst(r *kit.Rng, sc *scenario) {
 		sc.Script = append(sc.Script, cmd)
 		return true
 	}
-	last := func() int { return len(d.calls) - 1 }
-	// run every call, the notifier and the watchers until nothing can move
-	settleAll := func() {
-		for moved := true; moved && !d.aborted; {
-			moved = false
-			for _, g := range d.calls {
-				if d.callEnabled(g) {
-					moved = do("step g%d", g.id) || moved
-				}
+}
+
+// settleAll runs every call, the notifier and the watchers until nothing can move
+func (d *drv) settleAll(do func(format string, a ...any) bool) {
+	for moved := true; moved && !d.aborted; {
+		moved = false
+		for _, g := range d.calls {
+			if d.callEnabled(g) {
+				moved = do("step g%d", g.id) || moved
 			}
-			for d.notifEnabled() && do("step n") {
+		}
+		for d.notifEnabled() && do("step n") {
+			moved = true
+		}
+		for _, w := range d.sortedWatchers() {
+			for d.watchEnabled(w) && do("step w%d", w.c) {
 				moved = true
-			}
-			for _, w := range d.sortedWatchers() {
-				for d.watchEnabled(w) && do("step w%d", w.c) {
-					moved = true
-				}
 			}
 		}
 	}
+}
+
+// stale: an Update with a lower offset reaches the broker after a higher one was delivered
+// (late or racing updaters), and the watcher is woken afterwards in several ways: within one
+// subscription nothing lower may ever be reported
+func (d *drv) stale(r *kit.Rng, sc *scenario) {
+	do := d.recorder(sc)
+	p := r.Intn(nProj)
+	q := (p + 1 + r.Intn(nProj-1)) % nProj
+	do("new 0")
+	do("sub 0 %d", p)
+	do("sub 0 %d", q)
+	do("watch 0")
+	d.settleAll(do)
+	high := uint64(5 + r.Intn(6))
+	do("upd %d %d", p, high)
+	d.settleAll(do) // delivered = high
+	low := uint64(kit.Pick(r, []int{0, 1, 2, int(high) / 2, int(high) - 1}))
+	do("upd %d %d", p, low)
+	if r.Bool() {
+		d.settleAll(do) // woken by the stale update's own event
+	}
+	for i, n := 0, 1+r.Intn(3); i < n && !d.aborted; i++ {
+		switch r.Intn(4) {
+		case 0: // woken through another projection of the same channel
+			do("upd %d %d", q, uint64(i+1))
+			d.settleAll(do)
+		case 1: // subscribe again (same subscription)
+			do("sub 0 %d", p)
+			d.settleAll(do)
+		case 2: // an update between the stale and the delivered offset
+			if low+1 < high {
+				do("upd %d %d", p, low+1+uint64(r.Intn(int(high-low-1))))
+				d.settleAll(do)
+			}
+		case 3: // a new subscription: it starts from 0 and is told the stored (lower) offset
+			do("uns 0 %d", p)
+			if r.Bool() {
+				d.settleAll(do)
+			}
+			do("sub 0 %d", p)
+			d.settleAll(do)
+		}
+	}
+	if r.Bool() {
+		do("upd %d %d", p, high+uint64(r.Intn(3))) // catching up again
+	}
+}
+
+// burst: the notifier is held parked while more than eventsChannelSize events are produced, so
+// that the last Update of the victim projection has to block in its enqueue with a full queue of
+// events of other projections; the victim's subscriber shares no projection with them
+func (d *drv) burst(r *kit.Rng, sc *scenario) {
+	do := d.recorder(sc)
+	last := func() int { return len(d.calls) - 1 }
+	settleAll := func() { d.settleAll(do) }
 	victim := r.Intn(nProj)
 	others := []int{(victim + 1) % nProj, (victim + 2) % nProj}
 	off := map[int]uint64{}
@@ -338,6 +392,8 @@ func run(sc *scenario, r *kit.Rng, budget int) (coq string, tags []string, d *dr
 		}
 	} else if sc.Kind == "burst" {
 		d.burst(r, sc)
+	} else if sc.Kind == "stale" {
+		d.stale(r, sc)
 	} else {
 		nextOff := map[int]uint64{}
 		total := budget + 40
@@ -450,12 +506,15 @@ func Generate(seed uint64, n int, tier string, corpusDir string, out *kit.Out) e
 			kind = "malformed"
 		case 6:
 			// a few per quick run, one in seven in the thorough tier
-			if tier == "thorough" || i%28 == 6 {
+			switch {
+			case i%28 == 6 || (tier == "thorough" && i%14 == 6):
 				kind = "burst"
+			case i%28 == 13 || (tier == "thorough" && i%14 == 13):
+				kind = "stale"
 			}
 		}
 		sc := &scenario{Kind: kind, Quotas: genQuotas(cr, kind)}
-		if kind == "burst" {
+		if kind == "burst" || kind == "stale" {
 			sc.Quotas = [4]int{4, 3, 9, 6}
 		}
 		budget := 25 + cr.Intn(50)
